@@ -269,9 +269,16 @@ class RandomTree:
         sub = w.cfg.subsidy(h)
         rw = sub + fees + reward_delta
         cb_outs = [{"v": rw, "k": rng.randint(1, self.nkeys)}] if rw > 0 else []
-        if rw > 3 and rng.random() < 0.3:
+        x = rng.random()
+        if rw > 3 and x < 0.3:
             a = rng.randint(1, rw - 1)
             cb_outs = [{"v": a, "k": rng.randint(1, self.nkeys)}, {"v": rw - a, "k": rng.randint(1, self.nkeys)}]
+        elif rw > 4 and x < 0.4:
+            # unusual but legal shapes: a reward split over several outputs
+            a, b = sorted(rng.sample(range(1, rw), 2))
+            cb_outs = [{"v": v, "k": rng.randint(1, self.nkeys)} for v in (a, b - a, rw - b) if v > 0]
+        elif reward_delta == 0 and not hmut and not mut and x < 0.47:
+            cb_outs = []                      # the miner claims nothing at all (a reward transaction without outputs is legal)
         cb = {"id": bid * 10, "ins": [{"ref": {"tx": -1, "idx": 0}, "kind": "cbdata", "signer": -1, "cbh": h,
                                        "small": True}], "outs": cb_outs, "sizeok": True, "mut": ""}
         d = {"id": bid, "parent": parent, "height": h, "ts": ts, "powok": True, "evok": True, "merkleok": True,
